@@ -8,10 +8,22 @@
   the records that were set (and a golden corpus recorded at the pinned commit must keep decoding).
   Proved here for all inputs: the layout lemmas relating the framing the model reader parses
   to the specification's parser, and the dictionary-reference rule of the string codec.
+
+  The decoder also COUNTS the specification violations that do not stop decoding
+  (`Decoded.dictViolations`, printed as `dv=` by the driver; the harness expects 0): direct string
+  encodings of a value already in its dictionary, and values-only multimap encodings against a
+  previous value of more than 62 pairs (specification, MultiMap codec: "Value-only encoding can be
+  used if the number of key-value pairs in the MultiMap is less than or equal to 62 ... more than 62
+  key-value pairs then Full MultiMap Encoding is always used"). `values_only_over_62_is_violation`
+  states the second rule at the node level for every schema / node / state;
+  `specenc_values_only_within_62` and `specenc_stream_counts_nothing` say that the proved encoder
+  (Stef/SpecEnc.lean) never produces such an encoding.
 -/
 import Stef.Proofs.Reader
 import Stef.Proofs.Codec
 import Stef.Spec
+import Stef.Proofs.SpecViolations
+import Stef.Proofs.SpecEncStream
 
 namespace Stef.Props.C02
 open Stef
@@ -80,6 +92,125 @@ theorem dict_admission (d : List Bytes) (v : Bytes) (h : v ∉ d) :
   rw [this]
   simp only
   split <;> rfl
+
+/-! ## values-only multimap encodings of more than 62 pairs -/
+
+/-- the pairs of the previous value that the multimap decoder walks (anything that is not a
+    multimap counts as empty, as in `Spec.decodeNode`) -/
+def prevPairs : Spec.St → List (Spec.St × Spec.St)
+  | .mmap ps => ps
+  | _ => []
+
+/-- **values_only_over_62_is_violation**: a multimap node whose header is a values-only header (a
+    non-zero even number `x`; `x >>> 1` is the mask of the changed values) is decoded against the
+    previous value `cur`. If `cur` has MORE than 62 pairs, the header itself counts one
+    specification violation: the values are decoded from a state whose counter is one higher, and
+    the counter of the final state is at least one higher than before the node (it never decreases
+    afterwards, `Proofs/SpecViolations.lean`). If `cur` has AT MOST 62 pairs the header counts
+    nothing: the result is exactly the result of decoding the values from the header-consumed
+    state. Decoding continues in both cases (same values). Every schema, environment, column
+    state, fuel. -/
+theorem values_only_over_62_is_violation (σ : Spec.Schema) (fuel : Nat) (env : List (String × Spec.Node))
+    (col : Nat) (name : String) (kty vty : Spec.Ty) (k v : Spec.Node) (cur : Spec.St) (ds : Spec.DS)
+    (x : Word) (rest : Bytes) (val : Spec.St) (ds' : Spec.DS)
+    (hx : Varint.decode (ds.col col).bytes = some (x, rest)) (h0 : x ≠ 0#64) (hl : x.getLsbD 0 = false)
+    (h : Spec.decodeNode σ (fuel + 1) env (.mmap col name kty vty k v) cur ds = .ok (val, ds')) :
+    (62 < (prevPairs cur).length →
+      (∃ ps, Spec.decodeValuesOnly σ fuel ((name, Spec.Node.mmap col name kty vty k v) :: env) v (x >>> 1).toNat 0
+          (prevPairs cur)
+          { ds.setCol col { ds.col col with bytes := rest } with dictViolations := ds.dictViolations + 1 } = .ok (ps, ds') ∧
+        val = .mmap ps) ∧
+      ds.dictViolations + 1 ≤ ds'.dictViolations) ∧
+    ((prevPairs cur).length ≤ 62 →
+      ∃ ps, Spec.decodeValuesOnly σ fuel ((name, Spec.Node.mmap col name kty vty k v) :: env) v (x >>> 1).toNat 0
+          (prevPairs cur) (ds.setCol col { ds.col col with bytes := rest }) = .ok (ps, ds') ∧
+        val = .mmap ps) := by
+  have hpp : Proofs.Forward.mmapPairs cur = prevPairs cur := by cases cur <;> rfl
+  rw [Proofs.Forward.decodeNode_mmap, hpp] at h
+  simp only [hx, Spec.needBytes, bind, Except.bind, h0, hl, if_false, Bool.false_eq_true] at h
+  refine ⟨fun hgt => ?_, fun hle => ?_⟩
+  · rw [if_pos hgt] at h
+    split at h
+    · cases h
+    · rename_i r hr
+      obtain ⟨ps, d1⟩ := r
+      injection h with h; injection h with h1 h2; subst h1; subst h2
+      exact ⟨⟨ps, hr, rfl⟩, Proofs.SpecViolations.decodeValuesOnly_dv_mono _ _ _ _ _ _ _ _ _ _ hr⟩
+  · have hng : ¬ (prevPairs cur).length > 62 := by omega
+    rw [if_neg hng] at h
+    split at h
+    · cases h
+    · rename_i r hr
+      obtain ⟨ps, d1⟩ := r
+      injection h with h; injection h with h1 h2; subst h1; subst h2
+      exact ⟨ps, hr, rfl⟩
+
+/-! non-vacuity: a multimap of int64 keys and values (columns 0, 1, 2), header `2` (values-only,
+    value 0 changed), one value byte; previous value of 63 pairs: one violation; of 62 pairs: none -/
+
+namespace VO
+def node : Spec.Node := .mmap 0 "M" (.prim .i64 none) (.prim .i64 none) (.prim 1 .i64 none) (.prim 2 .i64 none)
+def prev (n : Nat) : Spec.St := .mmap (List.replicate n (.i 0#64, .i 0#64))
+def ds : Spec.DS := { cols := #[{ bytes := [2#8] }, {}, { bytes := [2#8] }] }
+def dvAfter (n : Nat) : Option Nat :=
+  match Spec.decodeNode { defs := [] } 100 [] node (prev n) ds with
+  | .ok (_, d) => some d.dictViolations
+  | .error _ => none
+end VO
+
+example : VO.dvAfter 63 = some 1 ∧ VO.dvAfter 62 = some 0 :=
+  ⟨by with_unfolding_all rfl, by with_unfolding_all rfl⟩
+
+example : ∃ val ds', Spec.decodeNode { defs := [] } 100 [] VO.node (VO.prev 63) VO.ds = .ok (val, ds') ∧
+    VO.ds.dictViolations + 1 ≤ ds'.dictViolations := by
+  cases h : Spec.decodeNode { defs := [] } 100 [] VO.node (VO.prev 63) VO.ds with
+  | error e =>
+    have : VO.dvAfter 63 = some 1 := by with_unfolding_all rfl
+    simp [VO.dvAfter, h] at this
+  | ok r =>
+    obtain ⟨val, ds'⟩ := r
+    refine ⟨val, ds', rfl, ?_⟩
+    exact ((values_only_over_62_is_violation { defs := [] } 99 [] 0 "M" _ _ _ _ (VO.prev 63) VO.ds 2#64 [] val ds'
+      (by decide +kernel) (by decide) (by decide) h).1 (by simp [prevPairs, VO.prev])).2
+
+/-- **specenc_values_only_within_62**: the proved encoder (Stef/SpecEnc.lean) writes the values-only
+    form only against a previous value of at most 62 pairs (it returns `none` otherwise); the
+    decoder reads the node back into the encoder's state, and the violation counter is unchanged. -/
+theorem specenc_values_only_within_62 (σ : Spec.Schema) (fuel : Nat) (env : List (String × Spec.Node))
+    (col : Nat) (name : String) (kty vty : Spec.Ty) (k v : Spec.Node) (cur new : Spec.St) (changed : Nat)
+    (subs : List SpecEnc.Mk) (ds : Spec.DS) (evs : List SpecEnc.Ev) (ds' : Spec.DS) (eff : Spec.St)
+    (h : SpecEnc.encodeNode σ fuel env (.mmap col name kty vty k v) cur new (.mmapVals changed subs) ds = some (evs, ds', eff)) :
+    (prevPairs cur).length ≤ 62 ∧
+    Spec.decodeNode σ fuel env (.mmap col name kty vty k v) cur (SpecEnc.feed evs ds) = .ok (eff, ds') ∧
+    ds'.dictViolations = ds.dictViolations := by
+  have hpp : SpecEnc.mmapPairs cur = prevPairs cur := by cases cur <;> rfl
+  refine ⟨?_, ?_, ?_⟩
+  · cases fuel with
+    | zero => simp [SpecEnc.encodeNode] at h
+    | succ fuel =>
+      simp only [SpecEnc.encodeNode] at h
+      split at h
+      · split at h
+        · split at h
+          · rename_i hc
+            rw [← hpp]
+            exact hc.2.2
+          · simp at h
+        · simp at h
+      · simp at h
+  · have := (SpecEnc.roundtrip_all σ fuel).1 env _ cur new _ ds evs ds' eff [] h
+    simpa using this
+  · exact (SpecEnc.preserves_all (fun d => d.dictViolations = ds.dictViolations) (fun d i c hd => hd)
+      (fun d a ha hd => by rw [← hd]; exact ha) σ fuel).1 env _ cur new _ ds evs ds' eff h rfl
+
+/-- **specenc_stream_counts_nothing**: every stream the proved encoder produces is decoded by the
+    specification decoder with the violation counter 0 - in particular without a values-only
+    multimap encoding of more than 62 pairs (restatement of `C01Enc.stream_roundtrip`, third part,
+    under the counter's present meaning). -/
+theorem specenc_stream_counts_nothing (σ : Spec.Schema) (rootName : String) (ins : List SpecEnc.FrameIn) (bytes : Bytes)
+    (effss : List (List Spec.St)) (h : SpecEnc.encodeStream σ rootName ins = some (bytes, effss)) :
+    (Spec.decodeStream σ rootName bytes).dictViolations = 0 :=
+  (SpecEnc.stream_roundtrip σ rootName ins bytes effss h).2.2
 
 -- non-vacuity
 example : Spec.readFixedHeader (Reader.fixedHeaderBytes ++ [7#8]) = .ok (0, [7#8]) := fixed_header_layout _
